@@ -188,7 +188,14 @@ pub fn into_tokens(c: char, it: &mut Peekable<Chars>, state: &mut State) -> LexR
 
                     if c == '{' {
                         if build_cur_expr == 0 {
-                            cur_offset = state.pos.offset_pos(string.len() + 1);
+                            // right after what has been read of this string, which may span lines
+                            cur_offset = match string.rfind('\n') {
+                                Some(idx) => CaretPos::new(
+                                    state.pos.line + string.matches('\n').count(),
+                                    string.len() - idx,
+                                ),
+                                None => state.pos.offset_pos(string.len() + 1),
+                            };
                         }
                         build_cur_expr += 1;
                     } else if c == '}' {
